@@ -36,7 +36,6 @@ void h_adapt(void) {
     __CPROVER_assert(g_error == 0, "C12 adapt: error callback never invoked");
     if (!use_sig || !use_pre || !use_t || (par != 0 && par != 1)) {
         __CPROVER_assert(ret == 0 && g_illegal == 1, "C12 adapt: NULL argument or parity outside {0,1} is illegal, returns 0");
-        if (use_sig && p_sig == sig) __CPROVER_assert(sig[g_k] == sig0[g_k] && sig[32 + g_k] == sig0[32 + g_k], "C12 adapt: illegal call writes nothing");
     } else {
 #ifndef VERIF_NATIVE
         wide n = N_(), s = be256(&pre0[32]), t = be256(t32), want;
@@ -73,7 +72,6 @@ void h_extract(void) {
     __CPROVER_assert(g_error == 0, "C12 extract: error callback never invoked");
     if (!use_sig || !use_pre || !use_t || (par != 0 && par != 1)) {
         __CPROVER_assert(ret == 0 && g_illegal == 1, "C12 extract: NULL argument or parity outside {0,1} is illegal, returns 0");
-        __CPROVER_assert(etout[g_k] == tout0[g_k], "C12 extract: illegal call writes nothing");
     } else {
 #ifndef VERIF_NATIVE
         wide n = N_(), s = be256(&epre[32]), sg = be256(&esig[32]), want;
